@@ -5,9 +5,28 @@ import common as C
 PROPERTIES = ["C08"]
 MANIFEST = {
     "C08": {
-        "technique": "Lean 4 proof (refinement of a checked-memory model of Buffer to a byte queue, invariant by induction over operation lists) + differential correspondence model vs real Buffer.hpp",
-        "text": "Theorems over all operation histories of the Lean model of Buffer (byte-queue refinement, terminator, no out-of-range access); the model is tied to the current Buffer.hpp on every run by executing identical op lines on both (exhaustive small scope + random histories, ASan/UBSan, guard bytes) and by an independent reference byte queue.",
-        "note": "Trusted: Lean kernel + the three standard axioms; hand translation of Buffer.hpp into the model (validated by the correspondence run, not proved); checked-memory abstraction (separate blocks, no pointer arithmetic across blocks); allocation never fails; attached ranges are used by one buffer at a time.",
+        "technique": "Lean 4 proof: representation invariant + refinement of a checked-memory model of Buffer.hpp to a byte-queue "
+                     "specification, lifted by induction over arbitrary operation lists; differential correspondence of the model "
+                     "against the real Buffer.hpp (ASan/UBSan harness) + independent Python byte-queue oracle on every run",
+        "text": "Proved in Lean (lean/Nstd/Buffer/Props.lean) for ALL operation lists over any number of Buffer variables and any "
+                "attachable regions, no bound on sizes/offsets/history length: no_fault (well-formed histories never access memory "
+                "outside the object's own allocation or the attached range, never store into attached memory, never read a freed block), "
+                "terminator_zero (in every reachable state an owning Buffer has a readable 0 byte right after its data), refines (the exposed "
+                "bytes of every variable match the byte-queue spec of Spec.lean; bytes newly exposed by a growing resize are unspecified), "
+                "attached_untouched (regions are unchanged), att_store_faults, buffer_correct (all of it at once).  The model follows "
+                "Buffer.hpp method by method and branch by branch (constructors, attach, operator=, assign, both prepend/append overloads "
+                "incl. a.prepend(a)/a.append(a)/a=a, resize, reserve, removeFront/Back, clear, swap, free).  The model is tied to the current "
+                "Buffer.hpp on every run: identical op lines are executed by a harness built from the current sources (fresh memory "
+                "poisoned, guard bytes around attached ranges, exactly sized heap copies of data arguments) and by the compiled model; size, "
+                "bytes, ownership flag, the byte after the data and the region contents are compared after every operation, and an "
+                "independent Python reference queue is evaluated on the implementation's output.",
+        "note": "Trusted: Lean kernel + propext/Classical.choice/Quot.sound; the hand translation of Buffer.hpp into Model.lean (validated "
+                "by the correspondence run, not proved).  Modelled rather than verified: memory is one checked block per Buffer object held by "
+                "value (every Buffer owns its allocation exclusively), so delete[] bookkeeping is not modelled: double free / use of a stale "
+                "buffer pointer / leaks are caught by ASan+LSan in the harness only, not by the theorems (exception: the read of the just-freed "
+                "block in `a = a` is a model fault and proved absent).  Data arguments passed as (pointer, size) are assumed not to point into "
+                "the object's own block (Buffer arguments may be the object itself - proved).  Allocation never fails; usize arithmetic does not "
+                "wrap (Nat).  operator==/!= , size(), capacity(), isEmpty() are exercised by the correspondence run only.  No theorem is partial.",
         "design_ref": "DESIGN.md 3/C08",
     }
 }
@@ -47,7 +66,15 @@ def reference(hist, impl_out):
         v = int(t[1]) if len(t) > 1 else 0
         w = int(t[2]) if len(t) > 2 and op in ("copy", "assignb", "prependb", "appendb", "swap", "eq") else 0
         if op == "eq":
-            out.append(f"eq {1 if q[v] == q[w] else 0}")
+            # bytes exposed by a growing resize are unspecified: the comparison is determined only if the
+            # lengths differ, a specified pair differs, or everything is specified
+            a, b = q[v], q[w]
+            if len(a) != len(b) or any(x is not None and y is not None and x != y for x, y in zip(a, b)):
+                out.append("eq 0")
+            elif any(x is None or y is None for x, y in zip(a, b)) and v != w:
+                out.append("eq ?")
+            else:
+                out.append("eq 1")
             continue
         if op in ("new", "free", "clear"):
             q[v] = []
@@ -87,7 +114,7 @@ def reference(hist, impl_out):
 def ref_eq(impl, ref):
     """impl line `size bytes owned term | ... # regions`  against the reference line"""
     if impl.startswith("eq") or ref.startswith("eq"):
-        return impl == ref
+        return impl == ref or (ref == "eq ?" and impl in ("eq 0", "eq 1"))
     if impl.startswith("FAULT") or "#" not in impl:
         return False
     vars_i = impl.split(" # ")[0].split(" | ")
@@ -114,56 +141,80 @@ def rand_bytes(rng, n):
     return hexs([rng.randrange(1, 256) for _ in range(n)])
 
 
-def gen_history(rng, length, attached_regions=True):
-    """structured generator.  An attached region is handed to at most one live buffer
-    (aliasing two buffers onto the same caller memory is the caller's business, not Buffer's)."""
+def gen_history(rng, length, attached_regions=True, big=False):
+    """structured generator.  Sizes are drawn from a small table or relative to the current
+    queue lengths (tracked with the byte-queue semantics) so that the boundaries `size == length`,
+    `length +- 1`, head-room == size, capacity == required are hit often.  Regions may be
+    attached to both variables at once (Buffer never writes to attached memory)."""
     h = []
-    holder = {}     # region -> var currently attached (approximation kept by the generator)
-    att = [None, None]
-    sizes = [0, 0, 1, 1, 2, 3, 4, 5, 7, 8, 9, 16]
+    ln = [0, 0]
+    sizes = [0, 0, 1, 1, 2, 3, 4, 5, 7, 8, 9, 16] + ([17, 31, 32, 33, 64, 100, 257] if big else [])
+    last_removed = [0, 0]
     for _ in range(length):
         v = rng.randrange(2)
         w = rng.randrange(2)
         k = rng.random()
-        n = rng.choice(sizes)
-        if k < 0.16: op = f"append {v} {rand_bytes(rng, n)}"
-        elif k < 0.26: op = f"prepend {v} {rand_bytes(rng, n)}"
-        elif k < 0.36: op = f"removeFront {v} {n}"
-        elif k < 0.44: op = f"removeBack {v} {n}"
-        elif k < 0.52: op = f"resize {v} {n}"
+        if rng.random() < 0.35:
+            n = max(0, rng.choice([ln[v], ln[v] + 1, ln[v] - 1, ln[w], last_removed[v], last_removed[v] + 1,
+                                   max(0, last_removed[v] - 1), 2 * ln[v], ln[v] // 2]))
+            n = min(n, 300)
+        else:
+            n = rng.choice(sizes)
+        if k < 0.16: op = f"append {v} {rand_bytes(rng, n)}"; ln[v] += n
+        elif k < 0.26: op = f"prepend {v} {rand_bytes(rng, n)}"; ln[v] += n
+        elif k < 0.36: op = f"removeFront {v} {n}"; last_removed[v] = min(n, ln[v]); ln[v] = max(0, ln[v] - n)
+        elif k < 0.44: op = f"removeBack {v} {n}"; ln[v] = max(0, ln[v] - n)
+        elif k < 0.52: op = f"resize {v} {n}"; ln[v] = n
         elif k < 0.57: op = f"reserve {v} {n}"
-        elif k < 0.61: op = f"assign {v} {rand_bytes(rng, n)}"
-        elif k < 0.66: op = f"assignb {v} {w}"
-        elif k < 0.71: op = f"appendb {v} {w}"
-        elif k < 0.75: op = f"prependb {v} {w}"
-        elif k < 0.78: op = f"swap {v} {w}"; att[v], att[w] = att[w], att[v]
-        elif k < 0.81: op = f"clear {v}"
-        elif k < 0.84: op = f"free {v}"
-        elif k < 0.86: op = f"new {v}"
-        elif k < 0.88: op = f"newcap {v} {n}"
-        elif k < 0.90: op = f"newdata {v} {rand_bytes(rng, n)}"
-        elif k < 0.92: op = f"copy {v} {w}"
+        elif k < 0.61: op = f"assign {v} {rand_bytes(rng, n)}"; ln[v] = n
+        elif k < 0.66: op = f"assignb {v} {w}"; ln[v] = ln[w]
+        elif k < 0.71:
+            if ln[v] + ln[w] > 4000: continue
+            op = f"appendb {v} {w}"; ln[v] += ln[w]
+        elif k < 0.75:
+            if ln[v] + ln[w] > 4000: continue
+            op = f"prependb {v} {w}"; ln[v] += ln[w]
+        elif k < 0.78: op = f"swap {v} {w}"; ln[v], ln[w] = ln[w], ln[v]; last_removed[v], last_removed[w] = last_removed[w], last_removed[v]
+        elif k < 0.81: op = f"clear {v}"; ln[v] = 0
+        elif k < 0.84: op = f"free {v}"; ln[v] = 0
+        elif k < 0.86: op = f"new {v}"; ln[v] = 0
+        elif k < 0.88: op = f"newcap {v} {n}"; ln[v] = 0
+        elif k < 0.90: op = f"newdata {v} {rand_bytes(rng, n)}"; ln[v] = n
+        elif k < 0.92: op = f"copy {v} {w}"; ln[v] = ln[w]
         elif k < 0.94: op = f"eq {v} {w}"
         elif attached_regions:
             r = rng.randrange(2)
-            other = 1 - v
-            if att[other] == r:
-                r = 1 - r
-            if att[other] == r:
-                continue
             off = rng.randrange(REGLEN[r] + 1)
-            ln = rng.randrange(REGLEN[r] - off + 1)
-            op = f"attach {v} {r} {off} {ln}"
-            att[v] = r
-            h.append(op)
-            continue
+            l = rng.randrange(REGLEN[r] - off + 1)
+            op = f"attach {v} {r} {off} {l}"
+            ln[v] = l
         else:
             continue
-        # an attached buffer stops referring to its region once it owns storage; the generator
-        # keeps the conservative approximation "still attached" until the variable is re-created
-        if op.split()[0] in ("new", "newcap", "newdata", "free", "copy") :
-            att[v] = None
         h.append(op)
+    return h
+
+
+def gen_server(rng, length):
+    """the usage pattern of Server.cpp's send backlog (Server.cpp:343-348,459-463): append what could not be
+    sent, removeFront what a later send() accepted, free when drained; plus reserve/resize as in the read path"""
+    h = []
+    ln = 0
+    for _ in range(length):
+        k = rng.random()
+        if k < 0.45:
+            n = rng.choice([1, 2, 3, 5, 8, 13, 40, 100])
+            h.append(f"append 0 {rand_bytes(rng, n)}"); ln += n
+        elif k < 0.85:
+            n = rng.choice([1, 2, ln // 2, max(0, ln - 1), ln, ln + 1]) if ln else 1
+            h.append(f"removeFront 0 {n}"); ln = max(0, ln - n)
+            if ln == 0 and rng.random() < 0.5:
+                h.append("free 0")
+        elif k < 0.92:
+            h.append(f"reserve 0 {rng.choice([ln, ln + 1, 64, 256])}")
+        elif k < 0.96:
+            n = rng.choice([0, ln, ln + 7, ln // 2]); h.append(f"resize 0 {n}"); ln = n
+        else:
+            h.append("swap 0 1"); h.append("clear 1"); ln = 0
     return h
 
 
@@ -178,21 +229,6 @@ SMALL_OPS = [
 
 def exhaustive(depth, rng=None, limit=None):
     hs = [list(p) for d in range(1, depth + 1) for p in itertools.product(SMALL_OPS, repeat=d)]
-    # region 0 may be attached to one buffer only: drop histories that attach var 0, swap, attach again
-    def ok(h):
-        attached = False
-        swapped = False
-        for op in h:
-            if op.startswith("attach"):
-                if swapped and attached:
-                    return False
-                attached = True
-            if op.startswith("swap") or op.startswith("copy") is False and False:
-                pass
-            if op.startswith("swap") and attached:
-                swapped = True
-        return True
-    hs = [h for h in hs if ok(h)]
     if limit and len(hs) > limit:
         rng.shuffle(hs)
         hs = hs[:limit]
@@ -209,26 +245,63 @@ def nontrivial(h, out):
     return (frozenset(l.split()[0] for l in h), last)
 
 
+def _batch(args):
+    harness, driver, part = args
+    ds, nlines, done, crash, ios = C.run_batch(harness, driver, part, reference, C.wildcard_eq, 600)
+    if crash and not ds:
+        ds.append(C.Diff(part[-1] if part else [], max(0, len(part[-1]) - 1) if part else 0,
+                         "impl-exit", f"exit code {crash[0]}", None, None, crash[1]))
+    keys = set()
+    for h, o in zip(part, ios):
+        k = nontrivial(h, o)
+        if k is not None:
+            keys.add(k)
+    return ds, nlines, done, keys
+
+
+def differential_mp(ctx, harness, driver, histories):
+    """C.differential with worker *processes* (the Python reference oracle and the comparison dominate the
+    run time and do not scale over threads); same verdict logic (C.run_batch / C.compare_history)"""
+    import multiprocessing as mp
+    if not histories:
+        return []
+    chunk = max(1, (len(histories) + C.NCPU * 4 - 1) // (C.NCPU * 4))
+    parts = [(harness, driver, histories[i:i + chunk]) for i in range(0, len(histories), chunk)]
+    diffs, keys = [], set()
+    with mp.get_context("fork").Pool(C.NCPU) as pool:
+        for ds, nlines, done, ks in pool.imap(_batch, parts):
+            ctx.cov["evaluations"] += nlines
+            ctx.cov["traces_validated_against_impl"] += done
+            diffs += ds
+            keys |= ks
+    ctx.cov["distinct_nontrivial"] = ctx.cov.get("distinct_nontrivial", 0) + len(keys)
+    return diffs
+
+
 def histories_for(ctx):
     rng = ctx.rng
     quick = ctx.tier == "quick"
     hs = C.load_corpus(ctx.prop)
     ncorpus = len(hs)
-    ex = exhaustive(3 if quick else 4, rng, None if quick else 600000)
-    rnd = [gen_history(rng, rng.choice([5, 10, 20, 40])) for _ in range(3000 if quick else 40000)]
+    ex = exhaustive(3 if quick else 4)
+    nr = 15000 if quick else 120000
+    rnd = [gen_history(rng, rng.choice([5, 10, 20, 40])) for _ in range(nr)]
+    rnd += [gen_history(rng, rng.choice([10, 30, 60]), big=True) for _ in range(nr // 6)]
+    rnd += [gen_server(rng, rng.choice([10, 40])) for _ in range(nr // 10)]
     ctx.cov["rule"] = (f"corpus ({ncorpus}) + exhaustive: all op sequences of length <= {3 if quick else 4} over a {len(SMALL_OPS)}-op "
-                       f"alphabet (sizes 0,1,3,4,5; attach; self/other arguments){'' if quick else ' (sampled to 600000 at length 4)'}"
-                       f" ({len(ex)} histories) + {len(rnd)} random histories of 5..40 ops over 2 variables and 2 attachable regions; "
+                       f"alphabet (sizes 0,1,3,4,5; attach; self/other arguments)"
+                       f" ({len(ex)} histories) + {len(rnd)} random histories (5..60 ops over 2 variables and 2 attachable regions which may be shared; "
+                       "sizes 0..16, boundary sizes relative to the current lengths, 1/7 with sizes up to 300, 1/11 following the Server.cpp send-backlog pattern); "
                        "distinct_nontrivial = distinct (op-kind set, final observation) among histories with >= 3 ops and a non-empty final buffer")
-    ctx.cov["exhaustive"] = False
+    ctx.cov["exhaustive"] = True   # the enumerated scope is run completely (the random part is sampled)
     ctx.cov["exhaustive_scope"] = f"length<={3 if quick else 4} over {len(SMALL_OPS)} ops: {len(ex)} histories"
     return hs + ex + rnd
 
 
 def check(ctx):
     ctx.assumptions += [
-        "memory model of the Lean model: each allocation/attached range is a separate block, accesses are checked against its extent",
-        "an attached range is handed to one live Buffer at a time; data arguments given by pointer do not alias the buffer's own storage (Buffer arguments may be the buffer itself)",
+        "memory model of the Lean model: each Buffer holds its allocation / its attached range as a separate checked block; every access is validated against its extent; delete[] is not modelled (double free / stale pointers / leaks: ASan+LSan in the harness only)",
+        "data arguments given by (pointer, size) do not alias the buffer's own storage (Buffer arguments may be the buffer itself: proved)",
         "allocation never fails",
     ]
     proof_ok = C.proof_stage(ctx, PROPS, [DRIVER], leanchecker=(ctx.tier == "thorough"))
@@ -246,7 +319,7 @@ def check(ctx):
                 ops[l.split()[0]] = ops.get(l.split()[0], 0) + 1
         ctx.cov["op_histogram"] = ops
         ctx.cov["samples"] = [" ; ".join(h) for h in (hs[-3:] + hs[len(hs) // 2: len(hs) // 2 + 2])]
-        diffs = C.differential(ctx, harness, C.driver_path(DRIVER), hs, reference, C.wildcard_eq, nontrivial=nontrivial)
+        diffs = differential_mp(ctx, harness, C.driver_path(DRIVER), hs)
         ctx.log(f"{len(hs)} histories, {ctx.cov['evaluations']} op lines, {len(diffs)} disagreement(s)")
         C.report_diffs(ctx, diffs, harness, C.driver_path(DRIVER), reference, C.wildcard_eq, "buffer-ops")
     finally:
